@@ -44,18 +44,31 @@ def run(ctx, rep):
     rep.not_decided = NOT_DECIDED
     rep.trust("curve25519-dalek 4.1.3: from_canonical_bytes is None for S >= L; from_bytes_mod_order reduces; is_small_order; decompress")
     prog = ctx.prog("full")
-    vs = [f for f in prog.fns if any(c.path in DSM for c in f.calls()) and any(c.path in DECOMP for c in f.calls())]
+    # the verifier: the lowest crate function from which both dalek's decompress and
+    # vartime_double_scalar_mul_basepoint are reached; analysed with its private helpers folded in
+    from ..inline import inline
+
+    def reaches_both(f):
+        cs = [c for k in prog.reach_fns([f]) for c in prog.by_key[k].calls()]
+        return any(c.path in DSM for c in cs) and any(c.path in DECOMP for c in cs)
+    both = [f for f in prog.fns if f.kind != "closure" and reaches_both(f)]
+    bk = {f.key for f in both}
+    vs = [f for f in both if not any(g.key in bk and g.key != f.key for g in prog.callees(f))]
     rep.floor("signature-decoding verifier functions", len(vs), 1)
     for v in vs:
-        verifier(rep, prog, v)
+        verifier(rep, prog, inline(prog, v))
     callers(rep, prog, vs)
 
 
 def verifier(rep, prog, v):
-    sig = v.arg_local("signature") or 1
-    msg = v.arg_local("message") or 2
-    pk = v.arg_local("public_key") or 3
-    ph = v.arg_local("prehashed")
+    # parameters by type: signature &[u8; 64], public key &[u8; 32], message &[u8], pre-hashed flag bool
+    def by_ty(pred):
+        c = [p for p in cm.params_of(v) if pred(v.locals[p]["t"])]
+        return c[0] if len(c) == 1 else None
+    sig = by_ty(lambda t: "[u8; 64]" in t) or v.arg_local("signature") or 1
+    msg = by_ty(lambda t: t in ("&[u8]", "&'_ [u8]")) or v.arg_local("message") or 2
+    pk = by_ty(lambda t: "[u8; 32]" in t) or v.arg_local("public_key") or 3
+    ph = by_ty(lambda t: t == "bool")
     fw_sig = v.forward_slice([sig])
     fw_pk = v.forward_slice([pk])
     # FORBID
